@@ -8,6 +8,7 @@ import (
 	"path/filepath"
 	"sort"
 	"strings"
+	"sync/atomic"
 
 	"github.com/pokt-network/pocket-core/store/rootmulti"
 	"github.com/pokt-network/pocket-core/store/types"
@@ -43,6 +44,7 @@ func universe(nk int, rng *rand.Rand) [][]byte {
 //	c2             IAVL node cache of 2 nodes: children are (re)read from the database all the time
 //	cmsv           historical views through CacheMultiStoreWithVersion instead of LoadLazyVersion
 //	liverb         RollbackVersion runs on the live Store object when the process is up
+//	@N             (replay) the variant is applied to every N-th behaviour only
 type variant struct {
 	name   string
 	ldb    bool
@@ -50,10 +52,18 @@ type variant struct {
 	cache  int64
 	entry  string
 	liveRB bool
+	every  int // replay: apply to every N-th behaviour only ("ldb@40")
 }
 
 func parseVariant(s string) variant {
-	v := variant{name: s, cache: 100000, entry: "lazy"}
+	v := variant{name: s, cache: 100000, entry: "lazy", every: 1}
+	if i := strings.IndexByte(s, '@'); i >= 0 {
+		fmt.Sscanf(s[i+1:], "%d", &v.every)
+		if v.every < 1 {
+			v.every = 1
+		}
+		s = s[:i]
+	}
 	for _, p := range strings.Split(s, "-") {
 		switch p {
 		case "mem":
@@ -83,7 +93,6 @@ type world struct {
 	n       *node
 	ref     *node
 	scratch string
-	dirSeq  int
 
 	refChain [][]write         // blocks executed by the reference node
 	refApp   map[int][]byte    // version -> reference app hash
@@ -126,10 +135,12 @@ func newWorld(v variant, names []string, nk, ntk int, rng *rand.Rand, attempt in
 	return w
 }
 
+var dirSeq int64 // process-wide: worlds are created concurrently
+
 func (w *world) newBackend() backend {
 	if w.v.ldb {
-		w.dirSeq++
-		return newLevelBackend(filepath.Join(w.scratch, fmt.Sprintf("ldb-%d-%d", os.Getpid(), w.dirSeq)))
+		n := atomic.AddInt64(&dirSeq, 1)
+		return newLevelBackend(filepath.Join(w.scratch, fmt.Sprintf("ldb-%d-%d", os.Getpid(), n)))
 	}
 	return &memBackend{dbm.NewMemDB()}
 }
